@@ -25,6 +25,7 @@
 (*   out[j]   "ok" | "exc" | "any"   outcome of the body                   *)
 (*   sdur[j]  duration of the co_shutdown() handler (-1 = never returns)   *)
 (*   cdur[j]  duration of the clean-up a cancelled body performs           *)
+(*   scdur[j] duration of the clean-up a cancelled co_shutdown() performs  *)
 (*   pure     the top is a PureScheduler (never raises)                    *)
 (*   horizon  last instant considered in free mode (dur = -2)              *)
 (***************************************************************************)
@@ -48,7 +49,7 @@ CfgOf(J) ==
     req |-> [i \in 1..J.n |-> RangeOf(J.req[i])],
     crit |-> J.crit, forever |-> J.forever, win |-> J.win, tmo |-> J.tmo,
     stmo |-> J.stmo, dur |-> J.dur, out |-> J.out, sdur |-> J.sdur,
-    cdur |-> J.cdur, horizon |-> J.horizon ]
+    cdur |-> J.cdur, scdur |-> J.scdur, horizon |-> J.horizon ]
 
 Min(T) == CHOOSE t \in T : \A u \in T : t <= u
 Max(T) == CHOOSE t \in T : \A u \in T : t >= u
@@ -102,6 +103,7 @@ InitS(C) ==
     res |-> [n \in Nodes(C) |-> IF n = Root /\ Kids(C, Root) = {} THEN <<"true", 0>> ELSE NONE],
     sh  |-> [n \in Nodes(C) |-> "none"],
     ts  |-> [n \in Nodes(C) |-> -1],
+    tsc |-> [n \in Nodes(C) |-> -1],
     sdl |-> [n \in Nodes(C) |-> -1],
     sres |-> [n \in Nodes(C) |-> "none"],
     did |-> [n \in Nodes(C) |-> FALSE],
@@ -137,7 +139,9 @@ CancelHandlers(C, X, R) ==
      !.sh = [n \in Nodes(C) |->
                IF n \notin R \/ X.sh[n] # "running" THEN X.sh[n]
                ELSE IF IsSched(C, n) /\ X.relayed[n] THEN "creq"
-               ELSE "cancelled"]]
+               ELSE IF IsJob(C, n) /\ C.scdur[n] > 0 THEN "cing"
+               ELSE "cancelled"],
+     !.tsc = [n \in Nodes(C) |-> IF n \in R /\ X.sh[n] = "running" THEN X.now ELSE X.tsc[n]]]
 
 (* co_shutdown() tasks created by scheduler s for its members (one level)  *)
 Broadcast(C, X, s) ==
@@ -230,6 +234,10 @@ HandlerEndG(C, X, j) == /\ IsJob(C, j) /\ X.sh[j] = "running"
                         /\ C.sdur[j] >= 0 /\ X.now >= X.ts[j] + C.sdur[j]
 HandlerEndF(C, X, j) == [X EXCEPT !.sh[j] = "done"]
 
+(* HandlerCancelDone(j): a cancelled co_shutdown() has finished unwinding   *)
+HandlerCancelDoneG(C, X, j) == /\ IsJob(C, j) /\ X.sh[j] = "cing" /\ X.now >= X.tsc[j] + C.scdur[j]
+HandlerCancelDoneF(C, X, j) == [X EXCEPT !.sh[j] = "cancelled"]
+
 (* Relay(c): the co_shutdown() a nested scheduler received from its parent *)
 (* begins: nothing to do if it has shut down already or has no member,     *)
 (* otherwise it broadcasts to its own members                              *)
@@ -291,6 +299,7 @@ ShutCancelPropF(C, X, c) == [CancelHandlers(C, X, Pend(C, X, c)) EXCEPT !.sh[c] 
 (* Maximal progress: time passes only when no instant action is enabled    *)
 AnyInstant(C, X) ==
   \/ \E j \in Nodes(C) : \/ AdmitG(C, X, j) \/ CancelDoneG(C, X, j) \/ HandlerEndG(C, X, j)
+                         \/ HandlerCancelDoneG(C, X, j)
                          \/ (JobEndG(C, X, j) /\ C.dur[j] >= 0)
   \/ \E s \in Scheds(C) : \/ (MainG(C, X, s) /\ Unseen(C, X, s) # {})
                           \/ TimeoutG(C, X, s) \/ TidyDoneG(C, X, s) \/ ShutJoinG(C, X, s)
@@ -302,6 +311,7 @@ Alarms(C, X) ==
   \cup {X.tc[j] + C.cdur[j] : j \in {x \in Jobs(C) : X.st[x] = "cancelling"}}
   \cup {X.t0[s] + C.tmo[s] : s \in {x \in Scheds(C) : MainG(C, X, x) /\ C.tmo[x] >= 0}}
   \cup {X.ts[j] + C.sdur[j] : j \in {x \in Jobs(C) : X.sh[x] = "running" /\ C.sdur[x] >= 0}}
+  \cup {X.tsc[j] + C.scdur[j] : j \in {x \in Jobs(C) : X.sh[x] = "cing"}}
   \cup {X.sdl[s] : s \in {x \in Scheds(C) : ShutTimerLive(C, X, x)}}
   \cup (IF (\E j \in Jobs(C) : X.st[j] = "running" /\ C.dur[j] = -2) /\ X.now < C.horizon
         THEN {X.now + 1} ELSE {})
@@ -326,6 +336,7 @@ Acts(C, X) ==
                                       o \in {"ok", "exc"}}
   \cup {Act("CancelDone", j) : j \in {x \in Nodes(C) : CancelDoneG(C, X, x)}}
   \cup {Act("HandlerEnd", j) : j \in {x \in Nodes(C) : HandlerEndG(C, X, x)}}
+  \cup {Act("HandlerCancelDone", j) : j \in {x \in Nodes(C) : HandlerCancelDoneG(C, X, x)}}
   \cup UNION {{<<"Process", s, D, "-", 0>> : D \in (SUBSET Unseen(C, X, s)) \ {{}}} :
                  s \in {x \in Scheds(C) : MainG(C, X, x)}}
   \cup {Act("Timeout", s) : s \in {x \in Scheds(C) : TimeoutG(C, X, x)}}
@@ -343,6 +354,7 @@ Apply(C, X, a) ==
     [] a[1] = "JobEnd"     -> JobEndF(C, X, a[2], a[4])
     [] a[1] = "CancelDone" -> CancelDoneF(C, X, a[2])
     [] a[1] = "HandlerEnd" -> HandlerEndF(C, X, a[2])
+    [] a[1] = "HandlerCancelDone" -> HandlerCancelDoneF(C, X, a[2])
     [] a[1] = "Process"    -> ProcessF(C, X, a[2], a[3])
     [] a[1] = "Timeout"    -> TimeoutF(C, X, a[2])
     [] a[1] = "CancelProp" -> CancelPropF(C, X, a[2])
@@ -361,6 +373,7 @@ Admit(j)      == AdmitG(cfg, S, j) /\ S' = AdmitF(cfg, S, j)
 JobEnd(j)     == JobEndG(cfg, S, j) /\ \E o \in {"ok", "exc"} : OutOK(cfg, j, o) /\ S' = JobEndF(cfg, S, j, o)
 CancelDone(j) == CancelDoneG(cfg, S, j) /\ S' = CancelDoneF(cfg, S, j)
 HandlerEnd(j) == HandlerEndG(cfg, S, j) /\ S' = HandlerEndF(cfg, S, j)
+HandlerCancelDone(j) == HandlerCancelDoneG(cfg, S, j) /\ S' = HandlerCancelDoneF(cfg, S, j)
 Process(s)    == \E D \in SUBSET Unseen(cfg, S, s) : ProcessG(cfg, S, s, D) /\ S' = ProcessF(cfg, S, s, D)
 Timeout(s)    == TimeoutG(cfg, S, s) /\ S' = TimeoutF(cfg, S, s)
 CancelProp(s) == CancelPropG(cfg, S, s) /\ S' = CancelPropF(cfg, S, s)
@@ -372,7 +385,7 @@ ShutCancelProp(s) == ShutCancelPropG(cfg, S, s) /\ S' = ShutCancelPropF(cfg, S, 
 Tick          == TickG(cfg, S) /\ S' = TickF(cfg, S)
 
 Step ==
-  \/ \E j \in Nodes(cfg) : Admit(j) \/ JobEnd(j) \/ CancelDone(j) \/ HandlerEnd(j)
+  \/ \E j \in Nodes(cfg) : Admit(j) \/ JobEnd(j) \/ CancelDone(j) \/ HandlerEnd(j) \/ HandlerCancelDone(j)
   \/ \E s \in Scheds(cfg) : \/ Process(s) \/ Timeout(s) \/ CancelProp(s) \/ TidyDone(s)
                             \/ Relay(s) \/ ShutJoin(s) \/ ShutExpire(s) \/ ShutCancelProp(s)
   \/ Tick
